@@ -73,7 +73,7 @@ def nearest (cfg : Cfg S D) (tree : Array (Node S)) (q : S) : Nat :=
 
 /-- the states RRT keeps from `getMotionStates(a, b, states, validSegmentCount(a,b), true, true)` -/
 def motionStates (cfg : Cfg S D) (a b : S) : List S :=
-  let count := cfg.segCount a b
+  let count := cfg.segCount a b - 1
   if count + 1 < 2 then [b]
   else (List.range count).map (fun j => cfg.interp a b (cfg.frac (j + 1) (count + 1))) ++ [b]
 
